@@ -209,6 +209,7 @@ Fixpoint shift_slots (s : list (option Z)) (from to : nat) (diff : Z) (n : nat) 
   end.
 
 Definition move_forward_triv (L : list param) (v : vec) (from to : Z) : vec * list ev :=
+  if has_varying L && (from =? t_size (v_tbl v)) then (v, []) else
   let tgt := eaddr L v to in
   let src := eaddr L v from in
   let cnt := dend L v - src in
